@@ -47,7 +47,7 @@ def run(prop, tier, seed, work, ev):
     gen(work, "spell", c, inp=params)
     rejects += run_and_judge("random strings over all planes", c, work, ev, drv)
     import eng_eval
-    rejects += eng_eval.pool_families(["twins"], work, ev, drv)
+    rejects += eng_eval.pool_families(["twins", "twotokens", "keyword", "bsruns"], work, ev, drv)
     return rejects
 
 
